@@ -11,6 +11,12 @@
 // the device polls before and after.
 //
 // Part 3 (hang.go): the storage's device-state look-up hangs until its context ends.
+//
+// Part 4 (twin.go): two or three providers (or one provider under two hosts) alive in the same process and sharing
+// parts of their configuration are driven in turns; device codes are polled where they were not issued.
+//
+// In parts 1, 2 and 4 every provider answers several device authorizations (by several clients) and the user form is
+// configured as a path on the issuer or as the deprecated complete URL: a response must not depend on the flows before it.
 package main
 
 import (
@@ -20,7 +26,9 @@ import (
 func main() {
 	run := ev.Start("C16", "exploration")
 	run.SetRule("part 1: random histories (6-35 ops) of device_authorization / approve(user) / deny / expire / poll over clients {dev, dev2 confidential+Basic; devpub public; devjwt private_key_jwt; web without the device grant; ghost unregistered}, polls by the own / a foreign / an unauthenticated client (also a foreign client proving its own identity while the form names the owner), with unknown codes (garbage, the user code, truncated, extended, case-flipped, absent) and under storage faults (time-out injected or through an expired request context, plain error, server_error, cancelled context), each history executed on both routers in a fresh world; every device-authorization response and every poll is an evaluation; distinct = distinct vectors (router, code kind, own/foreign, owner kind>presenter kind, credential kind/standing, model state incl. expired / earlier denial, storage behaviour, poll-again) for polls and (router, client kind, credential kind, number of scopes) for device authorizations. " +
-		"part 2: generated device-authorization configurations, 2 requests + pending poll + approval through the user code + poll on each router; distinct = (router, alphabet kind, amount bucket, dash class, lifetime, poll interval, form path, issuer mode, form-URL knob, client kind)")
+		"part 2: generated device-authorization configurations, 2 requests + pending poll + approval through the user code + poll on each router; distinct = (router, alphabet kind, amount bucket, dash class, lifetime, poll interval, form path, issuer mode, form knob {path, url, url-deep, url-query}, client kind, first/later flow of the provider); 2-4 flows per provider. " +
+		"in parts 1, 2 and 4 the user form is the form path or the deprecated complete form URL (1 history in 7 with parameters of its own) and verification_uri must be exactly the configured form address for every flow of a provider - no user code, of this or an earlier flow - while verification_uri_complete adds exactly this flow's code. " +
+		"part 4: 2-3 providers alive together (same form URL string / same issuer with other form paths / URL beside path / host-derived issuers / identical but for the storage) or one provider under two hosts, 4-8 device authorizations in turns on both routers judged against the answering provider's own configuration, then per flow: poll at another provider before and after the approval (unknown code there: refused), pending poll, approval through the user code of the complete URI, poll (tokens); distinct = (router, mode, side, client kind, first/later at this provider)")
 	run.Assume(
 		"vstore policy (as the repository's example storage): GetDeviceAuthorizatonState answers only for the client id it is asked with, so 'a code of another client is refused' is decided by what client id the library hands to the storage",
 		"unguessability of the device code is only sampled: at least 128 bits of encoded length and no repeat among all device codes drawn in the run (a monitor cannot decide unpredictability)",
@@ -28,6 +36,8 @@ func main() {
 		"after a foreign, unauthenticated or failing attempt on a device code later success is grey; approved-then-expired, approved-after-denial, a second poll after success, odd presentations (secret in the form for a Basic client, superfluous secret of a public client) and device codes of a client without the device grant (LegacyServer, judged by C05) are grey for success and strict for refusal",
 		"whether a client may start a device flow (grant registration, credentials at /device_authorization) is C05's question and only counted here",
 		"a denial recorded after an approval (also by a storage that keeps Done set) is 'after denial': access_denied",
+		"a complete form URL with parameters of its own: verification_uri must show exactly them; whether verification_uri_complete keeps them beside user_code is grey (counted)",
+		"a device code presented at another provider of the same process (separate storage) is an unknown code there; such refusals do not taint the code at its own provider (they never reach its storage); the same provider reached under another host is not polled across hosts (open)",
 		"alphabets are letters/digits of any script, never empty, without URL-reserved punctuation and without '-'; CharAmount 1-32; DashInterval 0-33; with an issuer that has a path the form path may replace or extend it (grey)",
 	)
 	for _, rn := range []string{"provider", "legacy"} {
@@ -36,16 +46,24 @@ func main() {
 		}
 		run.Mandatory("success:"+rn, "success:"+rn+":conf", "success:"+rn+":public", "success:"+rn+":jwt",
 			"authorization_pending:"+rn, "access_denied:"+rn, "expired_token:"+rn, "slow_down:"+rn,
-			"unknown-code-refused:"+rn, "foreign-client-refused:"+rn, "config:"+rn, "hang:slow_down:"+rn)
+			"unknown-code-refused:"+rn, "foreign-client-refused:"+rn, "config:"+rn, "hang:slow_down:"+rn,
+			"history:form-path:later-flow:"+rn, "history:form-url:later-flow:"+rn, "config:form-path:later-flow:"+rn, "config:form-url:later-flow:"+rn,
+			"twin:response:"+rn, "twin:other-provider-refused:"+rn, "twin:success:"+rn)
 	}
 	if run.ReplayCase() < 0 {
 		run.Mandatory("alphabet:base20", "alphabet:digits", "alphabet:single-symbol", "alphabet:unicode")
+		for _, m := range twinModes {
+			run.Mandatory("twin:" + m)
+		}
 	}
 
 	nHist := run.N(2000, 50000)
 	nCfg := run.N(200, 5000)
+	nTwin := run.N(180, 3000)
 	if rc := run.ReplayCase(); rc >= 0 {
-		if rc >= hangBase {
+		if rc >= twinBase {
+			runTwin(run, int(rc-twinBase))
+		} else if rc >= hangBase {
 			runHang(run)
 		} else if rc >= cfgBase {
 			runConfig(run, int(rc-cfgBase))
@@ -63,6 +81,9 @@ func main() {
 	go func() { defer close(hangDone); runHang(run) }() // costs the library's own 4 s bound: runs beside the other parts
 	ev.Parallel(nCfg, 0, func(_ int, i int) {
 		runConfig(run, i)
+	})
+	ev.Parallel(nTwin, 0, func(_ int, i int) {
+		runTwin(run, i)
 	})
 	<-hangDone
 	finish(run)
